@@ -13,7 +13,7 @@ type DataSpec struct {
 	Period int    `json:"period"`
 }
 
-var dataClasses = []string{"text", "uniform", "nearuniform", "fib", "alpha3", "runs", "period", "tokendense", "mixed", "zeros", "sparse", "dom50", "alpha4", "pruns", "copies", "onerepeat", "digits"}
+var dataClasses = []string{"text", "uniform", "nearuniform", "fib", "alpha3", "runs", "period", "tokendense", "mixed", "zeros", "sparse", "dom50", "alpha4", "pruns", "copies", "onerepeat", "digits", "deepclust"}
 
 var words = []string{"the", "of", "and", "compression", "deflate", "window", "huffman", "stream", "a", "to", "in", "is", "that", "for", "block", "literal", "distance", "length", "code", "bits", "byte", "0123456789", "\n", ", ", ". ", "Intel", "fastgo", "golang"}
 
@@ -194,6 +194,91 @@ func (d DataSpec) Bytes() []byte {
 				}
 				for k := 0; k < l; k++ {
 					b[end-l+k] = b[end-l+k-dist]
+				}
+			}
+		}
+	case "deepclust":
+		// Fibonacci frequencies per 64 KiB stretch (a Huffman tree as deep as the format allows) with the
+		// rarest byte values - the ones with 13- to 15-bit codes - standing next to each other in clusters
+		// of three to six, one of them at the very start and one at the very end of the stretch: the
+		// longest codes in a row, at every alignment, and directly before the end of a block
+		stretch := 65536
+		if d.Period > 0 {
+			stretch = d.Period // (the stretch length can be set, so that a Flush can follow a cluster directly)
+		}
+		for off := 0; off < n; off += stretch {
+			seg := b[off:minInt(off+stretch, n)]
+			// (which profiles drive fastgo's length limiter to 15 bits was measured: a plain 1,1,2,3,5..
+			// profile stops at 12 bits, the ones below give eight to twelve 15-bit codes)
+			var cnt []int
+			f1, f2, tot := 1, 2, 0
+			switch r.Intn(6) {
+			case 1:
+				f2 = 3
+			case 2:
+				cnt, tot, f1, f2 = []int{1, 1, 1, 1, 1, 1, 1}, 7, 8, 13
+			case 3:
+				cnt, tot, f1, f2 = []int{1, 1, 1}, 3, 4, 7
+			case 4:
+				f1, f2 = 2, 3
+			case 5:
+				f1, f2 = 1, 1 // (the shallow one, kept for contrast)
+			}
+			for tot+f1 <= len(seg) && len(cnt) < 250 {
+				cnt = append(cnt, f1)
+				tot += f1
+				f1, f2 = f2, f1+f2
+			}
+			perm := r.Perm(256) // which byte value plays which rank
+			var rare, common []byte
+			for rank, c := range cnt {
+				for k := 0; k < c; k++ {
+					if c <= 8 && len(rare) < 24 {
+						rare = append(rare, byte(perm[rank]))
+					} else {
+						common = append(common, byte(perm[rank]))
+					}
+				}
+			}
+			top := byte(perm[maxInt(len(cnt)-1, 0)])
+			for len(rare)+len(common) < len(seg) {
+				common = append(common, top)
+			}
+			r.Shuffle(len(common), func(i, j int) { common[i], common[j] = common[j], common[i] })
+			if r.Intn(4) == 0 {
+				r.Shuffle(len(rare), func(i, j int) { rare[i], rare[j] = rare[j], rare[i] })
+			}
+			// cut the rare occurrences into clusters
+			var clusters [][]byte
+			for len(rare) > 0 {
+				k := minInt(3+r.Intn(4), len(rare))
+				clusters = append(clusters, rare[:k])
+				rare = rare[k:]
+			}
+			// cluster 0 goes to the end, cluster 1 to the start, the others to random places
+			out := seg[:0]
+			var mid [][]byte
+			if len(clusters) > 2 {
+				mid = clusters[2:]
+			}
+			cuts := make([]int, len(mid))
+			for i := range cuts {
+				cuts[i] = r.Intn(len(common) + 1)
+			}
+			sortInts(cuts)
+			if len(clusters) > 1 {
+				out = append(out, clusters[1]...)
+			}
+			prev := 0
+			for i, cpos := range cuts {
+				out = append(out, common[prev:cpos]...)
+				out = append(out, mid[i]...)
+				prev = cpos
+			}
+			out = append(out, common[prev:]...)
+			if len(clusters) > 0 {
+				for k := len(clusters[0]) - 1; k >= 0; k-- { // the rarest last
+					out = append(out, clusters[0][k])
 				}
 			}
 		}
